@@ -28,7 +28,7 @@ Start == [pm |-> FALSE, some |-> FALSE, v |-> <<>>, undet |-> FALSE, afterFallba
 
 \* one step of the fold; `undet` accumulates the corners (DESIGN.md 6.1):
 \*  - a period that exists only as the spill of a rule not matching the day is replaced by a later
-\*    normal rule matching the day or by a fallback rule
+\*    normal rule matching the day
 \*  - normal / additional rules that follow a fallback rule
 RuleStep(st, rule, n, ctx) ==
   LET cur == RuleEval(rule, n, ctx)
@@ -36,10 +36,11 @@ RuleStep(st, rule, n, ctx) ==
       late == st.afterFallback /\ rule.op # "fallback" /\ cur.some
   IN
   IF rule.op = "fallback" THEN
-       IF st.pm /\ st.some /\ ~IsAlwaysClosed(st.v)
+       \* a period that is not closed covers the day, whether it started today or spilled from yesterday
+       IF st.some /\ ~IsAlwaysClosed(st.v)
        THEN [st EXCEPT !.afterFallback = TRUE]
        ELSE [pm |-> cur.match, some |-> cur.some, v |-> cur.v,
-             undet |-> st.undet \/ spillOnlyPrev, afterFallback |-> TRUE]
+             undet |-> st.undet, afterFallback |-> TRUE]
   ELSE IF rule.op = "normal" /\ rule.kind # "closed" THEN
        IF cur.match
        THEN [pm |-> TRUE, some |-> TRUE, v |-> cur.v,
@@ -70,4 +71,34 @@ Det(expr, n, ctx) ==
   \/ /\ \A i \in DOMAIN expr.rules : RuleDet(expr.rules[i], n, ctx)
      /\ ~Fold(Start, expr.rules, 1, n, ctx).undet
      /\ (n > DateStart \/ \A i \in DOMAIN expr.rules : ~HasSpill(expr.rules[i], n - 1, ctx))
+
+-----------------------------------------------------------------------------
+(* OpeningHoursExpression::is_constant (rules/mod.rs): the *syntactic* test behind the      *)
+(* iterator's "nothing ever changes" shortcut (next_change_hint returns 10000-01-01).       *)
+(* Transcribed clause by clause; its soundness - whenever it answers TRUE every day is one  *)
+(* period of the last rule's kind - is an invariant of MC_DayEval, and the flag the real     *)
+(* code computes is compared with this operator on every recorded expression.               *)
+DayEmpty(rule) == rule.year = <<>> /\ rule.monthday = <<>> /\ rule.week = <<>> /\ rule.weekday = <<>>
+Is0024(rule) == /\ Len(rule.time) = 1
+                /\ rule.time[1] = [s |-> [t |-> "fixed", m |-> 0], e |-> [t |-> "fixed", m |-> 1440],
+                                   open_end |-> FALSE, repeats |-> -1]
+RuleConstant(rule) == DayEmpty(rule) /\ Is0024(rule)
+ConstantKind(expr) == IF expr.rules = <<>> THEN "closed" ELSE expr.rules[Len(expr.rules)].kind
+IsConstant(expr) ==
+  LET rs   == expr.rules
+      kind == ConstantKind(expr)
+      \* scanning from the end, the first rule that is not "<some days> 00:00-24:00 <kind>"
+      stop == {i \in DOMAIN rs : DayEmpty(rs[i]) \/ ~Is0024(rs[i]) \/ rs[i].kind # kind}
+  IN IF rs = <<>> THEN TRUE
+     ELSE IF stop = {} THEN kind = "closed"
+     ELSE LET t == CHOOSE i \in stop : \A j \in stop : j <= i
+          IN /\ rs[t].op = "fallback" =>
+                  \* the rules before an unconditional fallback must leave every day either entirely
+                  \* closed or entirely of the fallback's kind
+                  \/ \A j \in 1..(t - 1) : rs[j].kind = "closed"
+                  \/ \A j \in 1..(t - 1) : Is0024(rs[j]) /\ rs[j].kind \in {"closed", kind}
+             /\ rs[t].kind = kind
+             /\ RuleConstant(rs[t])
+\* what a constant expression must evaluate to on every day of the supported range
+ConstantDay(expr, til) == \A i \in DOMAIN til : til[i].k = ConstantKind(expr)
 =============================================================================
